@@ -138,6 +138,7 @@ def build(variant, outdir):
     gen_header(incdir)
     cov = variant.startswith("cov")
     asan = variant.endswith("-asan")
+    tp = variant.endswith("-tp")      # gcc + -fsanitize-coverage=trace-pc: preemption points in code from the shipped compiler
     prof = variant.endswith("-prof")  # development aid: clang source-based coverage of the simulated copy (tools/srccov.py)
     dbg = variant.endswith("-dbg")   # same as cov but WITHOUT -DNDEBUG (assert-enabled builds are legitimate deployments)
     cc = "clang" if (cov or prof) else "gcc"
@@ -153,6 +154,8 @@ def build(variant, outdir):
     if cov:
         simflags += ["-fsanitize-coverage=trace-pc-guard,pc-table", "-fno-pic"]
         refflags += ["-fno-pic"]
+    if tp:
+        simflags += ["-fsanitize-coverage=trace-pc"]
     if prof:
         simflags += ["-fprofile-instr-generate", "-fcoverage-mapping"]
     fence = not asan and not prof   # ASan registers globals by section; leave its layout alone
